@@ -80,7 +80,18 @@ def main():
     for f in ("patch.diff", "demo.py", "notes.md"):
         if os.path.exists(os.path.join(src, f)):
             shutil.copy(os.path.join(src, f), os.path.join(dst, f))
-    with open(os.path.join(dst, "meta.json"), "w") as fh:
+    old_path = os.path.join(dst, "meta.json")
+    if os.path.exists(old_path):
+        # re-evaluation after the checks were strengthened: keep the suite result of the first evaluation and
+        # the history of what detected the change at each evaluation
+        old = json.load(open(old_path))
+        for k in ("suite_with_change", "suite_rc"):
+            if k not in meta and k in old:
+                meta[k] = old[k]
+        meta["earlier_evaluations"] = old.get("earlier_evaluations", []) + [
+            {"detected_by": old.get("detected_by", []), "checks_run": sorted(old.get("checks", {}))}]
+        meta["confirmed"] = meta["confirmed"] and old.get("confirmed", True)
+    with open(old_path, "w") as fh:
         json.dump(meta, fh, indent=1)
     print(json.dumps({k: meta[k] for k in ("id", "confirmed", "detected_by", "demo_without_change",
                                            "demo_with_change", "suite_with_change") if k in meta}))
